@@ -90,7 +90,14 @@ pub enum Kind {
     ReadSec { v1: u64, v2: u64, acq: u64, rel: u64 },
     WriteSec { seen: u64, new: u64, prev: u64, acq: u64, rel: u64 },
     NextNow { sub: usize, v: u64 },
-    Poll { sub: usize, res: PR, prev_pending_woken: Option<bool> },
+    Poll {
+        sub: usize,
+        res: PR,
+        prev_pending_woken: Option<bool>,
+        /// the thread had waited (in vain) for the previous Pending poll's waker before this poll
+        #[serde(default)]
+        waited: bool,
+    },
     Drop,
     Upgrade { ok: bool },
     /// subscribe() followed by get() on the new subscriber
@@ -232,6 +239,7 @@ struct ThreadCtx {
     last_pending: Option<Arc<Flag>>,
     last_written: u64,
     main_phase: bool,
+    waited: bool,
     recs: Vec<Rec>,
 }
 
@@ -270,7 +278,7 @@ impl ThreadCtx {
             self.last_pending = Some(flag);
         }
         let rt = clock.fetch_add(1, Ordering::SeqCst);
-        self.recs.push(Rec { thread: self.tid, main: self.main_phase, kind: Kind::Poll { sub: self.tid, res: res.clone(), prev_pending_woken: prev_woken }, inv, res: rt });
+        self.recs.push(Rec { thread: self.tid, main: self.main_phase, kind: Kind::Poll { sub: self.tid, res: res.clone(), prev_pending_woken: prev_woken, waited: std::mem::take(&mut self.waited) }, inv, res: rt });
         res
     }
     fn exec(&mut self, idx: usize, op: TOp, clock: &AtomicU64, free: bool) {
@@ -379,6 +387,7 @@ impl ThreadCtx {
                             while !f.woken() && Instant::now() < dl {
                                 std::hint::spin_loop();
                             }
+                            self.waited = !f.woken();
                         }
                     }
                 }
@@ -531,6 +540,7 @@ fn make_ctxs(case: &ThrCase) -> (Vec<ThreadCtx>, Option<SharedObservable<u64>>) 
             last_pending: None,
             last_written: init,
             main_phase: false,
+            waited: false,
             recs: vec![],
         })
         .collect();
@@ -762,10 +772,11 @@ pub fn judge(case: &ThrCase, out: &RunOut, prop: Prop) -> R<CaseReport> {
     // C02: ready implies flagged, for every subscriber, in every thread and in the final polls
     let mut other: Option<String> = None;
     for r in &out.recs {
-        if let Kind::Poll { sub, res, prev_pending_woken: Some(false) } = &r.kind {
+        if let Kind::Poll { sub, res, prev_pending_woken: Some(false), waited } = &r.kind {
             // after the join this is also C04's "ends on the final value": a task suspended on that
             // waker would never have polled again
-            let props: &[Prop] = if r.main { &[C02, C04] } else { &[C02] };
+            // (a consumer that had been waiting for that waker, too)
+            let props: &[Prop] = if r.main || *waited { &[C02, C04] } else { &[C02] };
             let msg = format!("subscriber {sub}: poll returned {:?} although the waker of its previous Pending poll was never woken ({})", res, sched());
             if props.contains(&prop) {
                 return Err(Stop::Violation(msg));
